@@ -227,7 +227,8 @@ int equiv(const TA& a, const TA& b, size_t limit) {
 }
 
 int is_complement(const TA& a, const TA& c, const Alphabet& sigma, std::string* why, size_t limit) {
-	for (const Sym& s : c.symbols()) if (!sigma.count(s)) { if (why) *why = "complement uses symbol " + s.first + ":" + std::to_string(s.second) + " outside the alphabet"; return 0; }
+	// "accepts no tree that uses a symbol outside S": about trees, so only rules that take part in an accepting run count
+	{ TA cu = trim_useless(c); for (const Sym& s : cu.symbols()) if (!sigma.count(s)) { if (why) *why = "the complement accepts a tree that uses symbol " + s.first + ":" + std::to_string(s.second) + ", which is outside the alphabet"; return 0; } }
 	// A restricted to sigma (rules over other symbols cannot be used by trees over sigma)
 	TA ar; ar.finals = a.finals; for (const Rule& r : a.rules) if (sigma.count(Sym(r.sym, int(r.ch.size())))) ar.rules.insert(r);
 	TA both = isect(ar, c);
